@@ -32,8 +32,9 @@ func (o *OCIDir) tagDelete(_ context.Context, r ref.Ref) error {
 		return fmt.Errorf("failed to read index: %w", err)
 	}
 	changed := false
-	for i, desc := range index.Manifests {
-		if t, ok := desc.Annotations[aOCIRefName]; ok && t == r.Tag {
+	// iterate in reverse, entries are deleted from the slice inside the loop
+	for i := len(index.Manifests) - 1; i >= 0; i-- {
+		if t, ok := index.Manifests[i].Annotations[aOCIRefName]; ok && t == r.Tag {
 			// remove matching entry from index
 			index.Manifests = slices.Delete(index.Manifests, i, i+1)
 			changed = true
